@@ -1,7 +1,8 @@
 //! C18 — a sampling decision is made once per trace and governs everything inside it.
 //!
 //! `check_case` runs one program (span tree + pushed headers + hops, as data) through the
-//! interpreter in `interp.rs` on a private trace-context runtime, on a fresh OS thread (so the
+//! interpreter in `interp.rs` on a private trace-context runtime (whose ctxt is carried the way the case says:
+//! concrete, `&`, `Box`, `Arc`, `Option`, `AssertInternal`, erased, nested — `ctxt.rs`), on a fresh OS thread (so the
 //! thread-local `ACTIVE_TRACEPARENT` of the shard thread is never involved), and then walks the
 //! program again with a model of the active traceparent, judging the sampler call log, the events
 //! that reached the emitter and `Traceparent::current()` / `SpanCtxt::current` at every check point.
@@ -1026,6 +1027,7 @@ pub fn judge(case: &Case, prog: &Prog, recs: &[Rec], log: &[L], cx: &mut Cx) -> 
     // how the ctxt reaches the runtime, and what went through each carrier
     let via = &case.ctxt;
     cx.class(&format!("ctxt-via:{:?}", via.via));
+    cx.class_if(j.roots_unsampled > 0, &format!("ctxt-via:{:?}/rejected-root-span", via.via));
     cx.class_if(via.via.is_erased() && !via.nest.is_empty(), "ctxt-nest:1+");
     cx.class_if(via.via.is_erased() && via.nest.len() >= 2, "ctxt-nest:2+");
     cx.class_if(via.via.is_erased() && via.inner.is_some(), "ctxt-inner:erased");
